@@ -76,7 +76,9 @@ def generate(rng, focus, tier="quick"):
         cfg["entries"] = {}
         for a in assets:
             r = rng.random()
-            cfg["entries"][a] = (start - DAY) if r < 0.5 else ((start + rng.randrange(0, 20) * DAY) if r < 0.9 else None)
+            cfg["entries"][a] = (start - DAY) if r < 0.5 else ((start + rng.randrange(0, 20) * DAY + rng.choice([0, CLOSE_S, 17 * 3600])) if r < 0.9 else None)
+        if rng.random() < 0.4:
+            cfg["entry_tz"] = dict((a, rng.choice(["US/Eastern", "Asia/Tokyo", "UTC"])) for a in assets)
     ops = []
     now = start
     last = dict((a, cfg["quotes0"][a][0]) for a in assets)
@@ -128,6 +130,11 @@ def generate(rng, focus, tier="quick"):
                 w[keys[-1]] = -w[keys[-1]]
         if "all_zero_weights" in enabled and rng.random() < 0.1:
             w = dict((a, 0.0) for a in w)
+        if long_only and rng.random() < 0.06:
+            # a strictly negative weight, possibly of negligible magnitude ("float noise"): still negative
+            w[keys[0]] = rng.choice([-1e-12, -5e-9, 0.3 - 0.1 - 0.2, -1e-7, -0.001, -0.25])
+            if len(keys) == 1:
+                w[rng.choice([a for a in assets if a != keys[0]] or keys)] = 0.5
         step = {"k": "rebalance", "t": now, "weights": w}
         if uk == "scripted":
             step["universe"] = sorted(rng.sample(assets, rng.randrange(0, n_assets + 1)))
@@ -209,7 +216,9 @@ def _run(plan, ctx):
     if uk == "static":
         uni = StaticUniverse(list(cfg["universe"]))
     elif uk == "dynamic":
-        uni = DynamicUniverse(dict((a, ts(e) if e is not None else None) for a, e in cfg["entries"].items()))
+        tzs = cfg.get("entry_tz") or {}
+        uni = DynamicUniverse(dict((a, ((ts(e).tz_convert(tzs[a]) if tzs.get(a) else ts(e)) if e is not None else None))
+                                   for a, e in cfg["entries"].items()))
     else:
         uni = scripted = _Universe()
     alpha = _Alpha()
@@ -367,7 +376,7 @@ def _run(plan, ctx):
         if ctx.judging("C19") and len(opt_calls) > n_o:
             oc = opt_calls[-1]
             if cfg["optimiser"] == "fixed":
-                ctx.check("C19", list(oc["out"].items()) == list(oc["in"].items()) and
+                ctx.check("C19", set(oc["out"]) == set(oc["in"]) and
                           all(fhex(oc["out"][a]) == fhex(oc["in"][a]) for a in oc["in"]),
                           "fixed_weight_optimiser_changed_its_input",
                           lambda: {"in": oc["in"], "out": oc["out"]})
